@@ -257,6 +257,14 @@ def merge_operator_tokens(
             if pooled_token:
                 yield pooled_token
                 pooled_token = None
+            if (
+                token.kind is Token.Kind.OPERATOR
+                and symbols
+                and token.token[-1] in symbols
+            ):
+                # `token` is an operator that can be collapsed on the right
+                pooled_token = token
+                continue
             yield token
             continue
 
